@@ -17,7 +17,7 @@ import z3
 
 from . import source
 from .core import Obligation, PROVED, REFUTED, UNDECIDED, ERROR
-from .symexec import (Interp, LoopInvariantFailure, PyRaise, SBool, SDict, SFloat, SInt, SList, SObj, SOpaque, SSet, SStr,
+from .symexec import (CyclicValue, Interp, LoopInvariantFailure, PyRaise, SBool, SDict, SFloat, SInt, SList, SObj, SOpaque, SSet, SStr,
                       STuple, SV, Sorts, Unsupported, _Tagged)
 
 
@@ -235,6 +235,10 @@ class EngineB:
                         f = cl.fn(ctx)
                     except Unsupported as e:
                         unknowns[cl.name].append(f"clause not evaluable: {e}")
+                        continue
+                    except (RecursionError, CyclicValue):
+                        # a result that contains itself (cyclic structure) cannot satisfy a clause over finite values
+                        failures[cl.name].append(("the result is a cyclic structure (clause evaluation diverged)", None, path))
                         continue
                     if f is True:
                         continue
